@@ -150,7 +150,9 @@ def run_case(case, ctx):
                 except Exception:
                     Fs[g] = (label, Dbad)
                     break
-        hists = [("A", "B"), ("A", "q", "B"), ("A", "B", "A"), ("B", "q", "A")]
+        # C = other values in the shape of A (what an accumulator keyed on the shape would not notice)
+        Cset = spec.data(numpy.random.RandomState(sub + 3))
+        hists = [("A", "B"), ("A", "q", "B"), ("A", "B", "A"), ("B", "q", "A"), ("A", "q", "C")]
         hists += [("A", "F" + g, "B") for g in sorted(Fs)] + [("F" + g, "q", "A") for g in sorted(Fs)[:1]]
         if not Fs:
             ctx.excluded("no invalid-input class is refused by this configuration")
@@ -158,7 +160,7 @@ def run_case(case, ctx):
             F = next((Fs[h[1]] for h in hist if h[0] == "F"), None)
             hist = tuple("F" if h[0] == "F" else h for h in hist)
             cfg = {"class": spec.name, "variant": vi, "history": "".join(hist), "sub": sub}
-            sets = {"A": A, "B": B}
+            sets = {"A": A, "B": B, "C": Cset}
             if "F" in hist:
                 cfg["failing_fit"] = F[0]
             last = [h for h in hist if h != "q"][-1]
